@@ -129,10 +129,54 @@ func (p *Prog) classifyClose(fn *ssa.Function, in ssa.Instruction, c *ssa.CallCo
 	if fn.Name() == "RemovePipe" && fn.Signature.Recv() != nil && fa != nil {
 		return "removepipe", "in RemovePipe, which the core calls once per pipe (C13.3)"
 	}
+	// I8: the close sits in a single-use private helper and the channel belongs to one of its
+	// parameters: judge the owner where the helper is called, as if its body stood there
+	if fa != nil {
+		root := fa.X
+		for {
+			if f2, ok := root.(*ssa.FieldAddr); ok {
+				root = f2.X
+				continue
+			}
+			break
+		}
+		if par, ok := root.(*ssa.Parameter); ok && p.singleUse(fn) {
+			idx := -1
+			for i, q := range fn.Params {
+				if q == par {
+					idx = i
+				}
+			}
+			if n := p.CG().Nodes[fn]; n != nil && idx >= 0 {
+				for _, e := range n.In {
+					if e.Site == nil || e.Site.Common().StaticCallee() != fn || idx >= len(e.Site.Common().Args) {
+						continue
+					}
+					av := e.Site.Common().Args[idx]
+					if al := freshRoot(av); al != nil {
+						return "fresh-object", "channel of an object the (only) caller " + p.FuncName(e.Caller.Func) + " has just allocated"
+					}
+					if k, why := p.detachedOwner(e.Caller.Func, e.Site, av); k != "" {
+						return k, why + " (in the only caller, " + p.FuncName(e.Caller.Func) + ")"
+					}
+				}
+			}
+		}
+	}
 	// I7: the owner object was taken out of a container field (slice) that this function
 	// re-stores under a lock before the close (inproc accepters popped / detached)
 	if fa != nil {
-		obj := fa.X
+		if k, why := p.detachedOwner(fn, in, fa.X); k != "" {
+			return k, why
+		}
+	}
+	return "", ""
+}
+
+// detachedOwner: obj was read out of a container field (slice) that fn re-stores under a
+// lock before instruction in.
+func (p *Prog) detachedOwner(fn *ssa.Function, in ssa.Instruction, obj ssa.Value) (string, string) {
+	{
 		if u, ok := obj.(*ssa.UnOp); ok && u.Op == token.MUL {
 			if ia, ok := u.X.(*ssa.IndexAddr); ok {
 				if cf := chanField(ia.X); cf != nil {
